@@ -60,6 +60,11 @@ try:
             rp = json.load(open(m.group(1)))
         res["checks"][cid] = {"rc": rc, "lines": lines, "wall_s": round(time.time() - t0), "replay_kind": rp.get("kind") if rp else None,
                               "replay_input": (rp.get("input") or "")[:400] if rp else None}
+        # keep the (shrunk) input that exposed the change as a regression case that always runs first
+        if rp and rp.get("input") and len(rp["input"]) < 20000:
+            os.makedirs(f"/verif/corpus/{cid}", exist_ok=True)
+            with open(f"/verif/corpus/{cid}/seeded.case", "a") as f:
+                f.write(f"# exposed the seeded change {pid}-{k} ({rp.get('kind')})\n{rp['input']}\n")
 finally:
     sh(f"git -C /repo worktree remove --force {wt}")
     alt = "/verif/work/alt-" + re.sub(r"[^A-Za-z0-9]+", "_", wt).strip("_")
